@@ -71,6 +71,10 @@ def krylov_and_autosave(env):
     extra = env.real("extra_krylov_tolerance", lo=0.0, hi=10.0)
     env.assume(extra > 0, "extra_krylov_tolerance > 0")
     autosave_dt = env.real("autosave_dt", lo=-100.0, hi=10000.0)
+    # the safeguards hold for every configuration: also for the non-default solver, however it is spelled
+    Solver = env.mod("emu_mps.solver").Solver
+    solver = env.choice("solver", ["default", "tdvp", "dmrg", "Solver.TDVP", "Solver.DMRG"])
+    solver_kw = {} if solver == "default" else {"solver": getattr(Solver, solver.split(".")[1]) if "." in solver else solver}
     cm = _quiet()
     try:
         raised = False
@@ -80,6 +84,7 @@ def krylov_and_autosave(env):
                 extra_krylov_tolerance=extra,
                 autosave_dt=autosave_dt,
                 observables=[pb.BitStrings(evaluation_times=[1.0])],
+                **solver_kw,
             )
         except AssertionError:
             raised = True
@@ -130,6 +135,33 @@ def krylov_and_autosave(env):
             su.krylov_exp = old
         env.check(_ge(env, seen["exp_tolerance"], floor), "exp_tolerance handed to krylov_exp >= 1e-12")
         env.check(_ge(env, seen["norm_tolerance"], floor), "norm_tolerance handed to krylov_exp >= 1e-12")
+        # ... and the Lanczos ground-state search the DMRG solver uses
+        seen2 = {}
+
+        class _Stop(Exception):
+            pass
+
+        def fake_minimization(op, v, **kw):
+            seen2.update(kw)
+            raise _Stop()
+
+        old2, old3 = su.krylov_energy_minimization, su.deallocate_tensor
+        su.krylov_energy_minimization = fake_minimization
+        su.deallocate_tensor = lambda t: None  # memory management only
+        try:
+            su.minimize_energy_pair(
+                state_factors=[T.ones(1, 2, 1, dtype=T.complex128), T.ones(1, 2, 1, dtype=T.complex128)],
+                baths=(T.ones(1, 1, 1, dtype=T.complex128), T.ones(1, 1, 1, dtype=T.complex128)),
+                ham_factors=[T.zeros(1, 2, 2, 1, dtype=T.complex128), T.zeros(1, 2, 2, 1, dtype=T.complex128)],
+                orth_center_right=True,
+                config=cfg,
+                residual_tolerance=cfg.precision,
+            )
+        except _Stop:
+            pass
+        finally:
+            su.krylov_energy_minimization, su.deallocate_tensor = old2, old3
+        env.check(_ge(env, seen2["norm_tolerance"], floor), "norm_tolerance handed to krylov_energy_minimization >= 1e-12")
     finally:
         cm.__exit__(None, None, None)
 
